@@ -163,6 +163,19 @@ impl Property for C20 {
                         5 => t = t.replacen("module top;", "module top;\n  initial $display(\"h\u{e9}llo `TOPW\");", 1),
                         _ => {}
                     }
+                    // byte-level variations of the top file that a reader might "normalise"
+                    match rng.below(12) {
+                        0 => t = format!("\u{feff}{}", t),
+                        1 => t = t.replace('\n', "\r\n"),
+                        2 => {
+                            while t.ends_with('\n') {
+                                t.pop();
+                            }
+                        }
+                        3 => t.push_str("\u{1a}"),
+                        4 => t = format!("\n\n{}", t),
+                        _ => {}
+                    }
                     if family >= 8 {
                         // library-map family
                         t = format!("// lib map\n`include \"{}\"\n{}", "l.map", gen::lib_program(&mut rng));
@@ -178,6 +191,23 @@ impl Property for C20 {
             top_path = "/w/top.sv".into();
         }
         sc.vfs = prog.nodes.clone();
+        if family < 8 && rng.chance(1, 8) {
+            // an include chain around the implementation limit: both sides must count levels alike
+            let depth = 60 + rng.below(9);
+            for n in sc.vfs.iter_mut() {
+                if let VNode::File { path, bytes } = n {
+                    if path == "/w/top.sv" {
+                        let t = String::from_utf8_lossy(&bytes.to_vec()).to_string();
+                        *bytes = Bytes::Text(format!("`include \"d1.svh\"\n{}", t));
+                    }
+                }
+            }
+            for i in 1..=depth {
+                let body = if i < depth { format!("`include \"d{}.svh\"\n", i + 1) } else { "// leaf\n".to_string() };
+                sc.vfs.push(VNode::file(&format!("{}/d{}.svh", prog.include_paths[0], i), &body));
+            }
+            sc.expect = serde_json::json!({ "deep_chain": depth });
+        }
         let base = |api: Api| -> Call {
             let mut c = Call::new(api, "top.sv");
             c.defines = prog.defines.clone();
@@ -351,6 +381,9 @@ impl Property for C20 {
             rep.probe("opaque_condition", 1);
         } else {
             rep.probe("groups_ok", 1);
+        }
+        if sc.expect.get("deep_chain").is_some() {
+            rep.probe("deep_chain_groups", 1);
         }
         match sc.family.as_str() {
             "parse_lib quartet" => rep.probe("lib_groups", 1),
